@@ -62,8 +62,9 @@ Proof.
     rewrite Hdig. replace (48 + k - c_0) with k by (unfold c_0; lia).
     pose proof (horner_ge ds (step v k)) as Hge. unfold horner in *. cbn [fold_left] in Hlt.
     unfold step in *.
-    rewrite N.mod_small by lia.
-    destruct (N.ltb_spec (v * 10 + k) v); [lia|].
+    assert (Hov : ((max_uint64 - k) / 10 <? v) = false).
+    { apply N.ltb_ge, N.div_le_lower_bound; [discriminate|]. unfold max_uint64, two64 in *. lia. }
+    rewrite Hov.
     rewrite IH by assumption. rewrite orb_true_r. cbn [fold_left]. unfold step.
     destruct ds; reflexivity.
 Qed.
@@ -170,8 +171,10 @@ Proof.
     assert (Hdig : is_digit (48 + k) = true) by (unfold is_digit, c_0, c_9; lia).
     rewrite Hdig. replace (48 + k - c_0) with k by (unfold c_0; lia).
     pose proof (horner_ge ds (step v k)) as Hge. unfold horner in *. cbn [fold_left] in Hlt.
-    unfold step in *. rewrite N.mod_small by lia.
-    destruct (N.ltb_spec (v * 10 + k) v); [lia|].
+    unfold step in *.
+    assert (Hov : ((max_uint64 - k) / 10 <? v) = false).
+    { apply N.ltb_ge, N.div_le_lower_bound; [discriminate|]. unfold max_uint64, two64 in *. lia. }
+    rewrite Hov.
     rewrite IH by assumption. rewrite orb_true_r. cbn [fold_left]. unfold step.
     destruct ds; reflexivity.
 Qed.
